@@ -19,13 +19,13 @@ TEXT = {
  "C03": dict(
    engine="hv", design_ref="DESIGN.md 3.C03",
    technique="fault injection at the handler (scripted outcomes) + return-value oracle + /proc blocked-reader certificate for 'bounded time'",
-   level_text="For every reply-bearing and acknowledged operation the handler outcome is scripted (success values incl. 0/max patterns, with/without file, every error variant, wrong-length/empty config, non-zero status) and the real frontend call's return is compared with it. 'Never an indefinite wait' is decided by a certificate read from /proc (caller parked in recvmsg, server parked in recvmsg or gone, SIOCINQ==0 both ways), never by the clock. A second unit (hd) drives all 21 device trait methods through the Mutex / RwLock / Arc adapters of vhost-user-backend around a recording device with succeeding and failing results: one invocation with equal arguments, and the adapter returns exactly what the device produced.",
+   level_text="For every reply-bearing and acknowledged operation the handler outcome is scripted (success values incl. 0/max patterns, with/without file, every error variant, wrong-length/empty config, non-zero status) and the real frontend call's return is compared with it. 'Never an indefinite wait' is decided by a certificate read from /proc (caller parked in recvmsg, server parked in recvmsg or gone, SIOCINQ==0 both ways), never by the clock. A second unit (hd) drives all 21 device trait methods through the Mutex / RwLock / Arc adapters of vhost-user-backend around a recording device with succeeding and failing results: one invocation with equal arguments, and the adapter returns exactly what the device produced (also while the device is busy: the call must wait on the lock, certified from /proc, and be forwarded once). The same unit runs a VhostUserDaemon in front of a device whose update_memory callback fails: SET_MEM_TABLE / ADD_MEM_REG / REM_MEM_REG must return an error to the frontend.",
    level_note="Trusted: /proc/<tid>/syscall + SIOCINQ as evidence of a permanently blocked reader. Which error variant is returned is not judged; un-acknowledged set-operations are observed only.",
  ),
  "C08": dict(
    engine="hv", design_ref="DESIGN.md 3.C08",
    technique="fault enumeration on the transport: deterministic segmentation/truncation by a raw peer (next segment only after SIOCINQ==0), differential oracle against single-write delivery; sender side under a minimal non-blocking send buffer with certified partial writes",
-   level_text="Each message type is delivered to each receiver (both request servers, the reply paths of Frontend/Backend proxy/GpuBackend) in every 2-split, 3-splits, byte-by-byte and random segmentations and must produce the same result, handler log and replies as a single write; every cut offset followed by end-of-stream must yield an error (clean Disconnected only at offset 0), no dispatch and no blocked reader. Senders run on a non-blocking socket with SO_SNDBUF at its minimum while a slow reader certifies partial writes and checks bytes once/in order and descriptors on byte 0 only. The crate-private sender is also driven directly (hook verif_send_with_payload) with messages that are both larger than one socket-buffer segment and descriptor-carrying. A receiver that keeps burning CPU after end-of-stream is reported through the CPU-tick spin certificate.",
+   level_text="Each message type is delivered to each receiver (both request servers, the reply paths of Frontend/Backend proxy/GpuBackend) in every 2-split, 3-splits, byte-by-byte and random segmentations and must produce the same result, handler log and replies as a single write; every cut offset followed by end-of-stream must yield an error (clean Disconnected only at offset 0), no dispatch and no blocked reader. Senders run on a non-blocking socket with SO_SNDBUF at its minimum while a slow reader certifies partial writes and checks bytes once/in order and descriptors on byte 0 only. The crate-private sender is also driven directly (hook verif_send_with_payload) with messages that are both larger than one socket-buffer segment and descriptor-carrying. A receiver that keeps burning CPU after end-of-stream is reported through the CPU-tick spin certificate. The hd unit daemon-truncation cuts the stream at every offset of three requests sent to a running VhostUserDaemon: wait() may report the clean Disconnected only for a cut on a message boundary.",
    level_note="Trusted: the kernel delivers ancillary data with the first byte of the skb it was sent with; SIOCINQ==0 means the receiver consumed the previous segment. Long messages have their split points sampled in quick tier.",
  ),
  "C04": dict(
